@@ -246,6 +246,17 @@ func c14implNew(a []string) string {
 	if err != nil {
 		return "err"
 	}
+	// what a caller holds must stay what it was: another credential of the same shape (other device id) is built
+	// and serialised before the blob of this one is looked at again
+	held := append([]byte{}, b...)
+	a2 := append([]string{}, a...)
+	a2[7] = "305419896"
+	if k3 := c14build(a2); k3 != nil {
+		k3.ToBytes()
+	}
+	if string(held) != string(b) {
+		return "ok blob-changed-by-a-later-credential"
+	}
 	i1 := k.CheckIntegrity()
 	k2 := &kcl.KeyCredential{}
 	if err := k2.FromBytes(c14exact(b)); err != nil {
